@@ -304,6 +304,19 @@ theorem c18_claim_never_mints_admin (requested : Option Role) :
   | none => decide
   | some r => cases r <;> decide
 
+/-- Observation (not a violation of the stated property, recorded for the maintainers): pair.claim needs
+the operator role, but the claimant chooses the role of the minted token, so an operator who knows the
+pending code obtains an engineer token. -/
+example :
+    let ep : Endpoint :=
+      { authToken := some "T", requiresAuth := false, debugEnabled := true, debugMode := false,
+        pairing := some ⟨[⟨"pair-o", "O", .operator, true, 2000⟩], some ("123456", 1300)⟩, now := 1000 }
+    let claim : Event :=
+      .line (.request { id := 1, type := "pair.claim", auth := some "O", nonce := "MINTED",
+                        params := .object [⟨"code", .str "123456", true⟩, ⟨"role", .str "engineer", true⟩] })
+    credentialRole ep (some "O") = some .operator ∧
+    credentialRole (run ep [claim]).1 (some "MINTED") = some .engineer := by decide
+
 /-! ## Non-vacuity -/
 
 /-- A concrete endpoint: token configured, debugging off, one live engineer pairing token, one expired
